@@ -23,8 +23,8 @@ def h_dt(f, N1, ext, same=False, period=None):
         A = env.A
         w2 = dt.trace(env, vs, N1 + ext)
         w1 = {v: w2[v][:N1] for v in vs}
-        s1 = dt.make_spec('offline~', 'out = ' + text(f), vs, period=period)
-        s2 = s1 if same else dt.make_spec('offline~', 'out = ' + text(f), vs, period=period)     # same: one object evaluates the growing trace
+        s1 = dt.make_spec('offline~', 'out = ' + text(f), vs, period=period, f=f)
+        s2 = s1 if same else dt.make_spec('offline~', 'out = ' + text(f), vs, period=period, f=f)     # same: one object evaluates the growing trace
         r1 = [p[1] for p in dt.offline(s1, w1, N1)]
         r2 = [p[1] for p in dt.offline(s2, w2, N1 + ext)]
         env.observe('short', r1)
@@ -141,6 +141,12 @@ def obligations(tier, rng):
         g = ('raw', txt, f)
         for N1, e in ([(7, 5)] if quick else [(7, 5), (4, 8), (9, 2)]):
             out.append(ob('C16', 'dt', 'dt/coarse-period/%s/P=5s/N1=%d+%d' % (txt, N1, e), f=g, N1=N1, ext=e, period=[5, 's'], wall=600))
+    from .. import pool
+    for i, g in enumerate(pool.ALL):
+        h = hor(g)
+        for N1, e in ([(h + 2, 3), (7, 5)] if quick else [(h + 1, 1), (h + 2, 3), (7, 5), (4, 8)]):
+            if N1 > h:
+                out.append(ob('C16', 'dt', 'dt/pool/%s/P=%s/unit=%s/N1=%d+%d' % (g[1], g[3] or '-', g[4] or '-', N1, e), f=g, N1=N1, ext=e, same=bool(i % 2), wall=600))
     # ONE specification object evaluating first the trace and then its extension (the usual way of monitoring a growing log)
     for f in f1:
         if quick and not (refsem.has_future(f) or f[0] in ('once', 'historically', 'since', 'prev', 'rise', 'once_t', 'since_t')):
